@@ -1,42 +1,1 @@
-/-
-  C17 (driver model) — file modes are preserved and refusals leave files untouched.
--/
-import PatchModel.Model.Driver
-namespace PatchModel.C17
-open PatchModel
-
-/-- a read-only target with --read-only=fail is refused before anything is touched: no operation, tree unchanged -/
-theorem readonly_fail_untouched (o : Options) (p : Bytes) (s : DState) (m : Nat) (b : Bytes)
-    (hro : o.readOnly = .fail) (hfile : s.fs.stat (absPath s p) = some (.file b m)) (hnow : m &&& writeMask = 0) :
-    ∃ s', (fixPermissionsIfNeeded o p).run s = (.ok { oldPerms := some m, needFix := true, hadFailure := true }, s') ∧
-      s'.fs = s.fs ∧ s'.trace = s.trace := by
-  sorry
-
-/-- a writable target is left alone by the permission check -/
-theorem writable_untouched (o : Options) (p : Bytes) (s : DState) (m : Nat) (b : Bytes)
-    (hfile : s.fs.stat (absPath s p) = some (.file b m)) (hw : m &&& writeMask ≠ 0) :
-    (fixPermissionsIfNeeded o p).run s = (.ok { oldPerms := some m, needFix := false, hadFailure := false }, s) := by
-  sorry
-
-/-- after the patched result has been written, the permission callback gives the file exactly the mode a git header asks for, or else
-    the mode the target had before (also when it had to be made writable, and also when a backup renamed the original away) -/
-theorem callback_mode (newMode : Nat) (perm : PermResult) (p : Bytes) (s : DState) (b : Bytes) (m0 : Nat)
-    (hfile : s.fs.lookup (absPath s p) = some (.file b m0)) (hf : s.faultAt = none) :
-    ∃ s', (permissionCallback newMode perm p).run s = (.ok (), s') ∧
-      s'.fs.lookup (absPath s p) = some (.file b
-        (if newMode != 0 then newMode &&& 0o7777 else match perm.oldPerms with | some m => m | none => m0)) := by
-  sorry
-
-/-- refusing a patch touches nothing but the reject file and the directories leading to it — never the target -/
-theorem refuse_touches_only_rejects (o : Options) (outputFile : Bytes) (p : Patch) (s s' : DState) (r : Except Exn Unit)
-    (h : (refuseToPatch o outputFile p).run s = (r, s')) :
-    ∃ ops, s'.trace = s.trace ++ ops ∧
-      ∀ op ∈ ops, ∀ q ∈ op.paths, q = absPath s (rejectPath o outputFile) ∨ ∃ d ∈ dirPrefixes (rejectPath o outputFile), q = absPath s d := by
-  sorry
-
-/-- with --dry-run a refusal touches nothing at all -/
-theorem refuse_dry (o : Options) (outputFile : Bytes) (p : Patch) (s : DState) (hd : o.dryRun = true) :
-    ∃ s', (refuseToPatch o outputFile p).run s = (.ok (), s') ∧ s'.fs = s.fs ∧ s'.trace = s.trace := by
-  sorry
-
-end PatchModel.C17
+import PatchModel.Props.C17
